@@ -53,13 +53,18 @@ func VerifC01EventTime() {
 		base = -base
 	}
 	ooo := zzverif.NondetInt64("ooo")
-	zzverif.Assume(ooo >= 0 && ooo <= 2*size)
+	zzverif.Assume(ooo >= 0 && ooo <= 3*size)
 	rec := &verifRecorder{}
 	tw := verifTumbling(time.Duration(size), time.Duration(ooo), 0, rec)
 	ts := make([]int64, k)
 	late := make([]bool, k)
 	maxTs := int64(0)
-	for i := 0; i < k; i++ {
+	next := 0
+	oooMax := int64(zzverif.Param("ooo_max_sizes", 2)) * size
+	zzverif.Assume(ooo <= oooMax)
+	ingest := func() {
+		i := next
+		next++
 		ts[i] = verifTs("ts", base, span*size)
 		if i == 0 || ts[i] > maxTs {
 			maxTs = ts[i]
@@ -67,6 +72,22 @@ func VerifC01EventTime() {
 		late[i] = ts[i] < maxTs-ooo
 		tw.Add(&verifEv{ts: time.Unix(0, ts[i]), id: i})
 		rec.ingested = i + 1
+	}
+	if zzverif.Param("reentrant", 0) == 1 {
+		// the producer may ingest the next event while the trigger goroutine is inside the callback
+		// (the window mutex is released around callback/sendResult)
+		inner := rec.callback
+		tw.callback = func(rows []types.Row) {
+			inner(rows)
+			if next < k && zzverif.Choose("add-during-callback", 2) == 1 {
+				zzverif.Cover("add-during-callback")
+				ingest()
+			}
+		}
+	}
+	for next < k {
+		i := next
+		ingest()
 		// schedule: the trigger goroutine may run 0..all pending watermarks now
 		verifDrainTumbling(tw, verifPickW("drain"+string(rune('0'+i)), 3))
 	}
@@ -114,6 +135,14 @@ func VerifC01EventTime() {
 		} else {
 			zzverif.Cover("accepted-row-pending")
 			zzverif.Assert(n == 0, "row-not-delivered-before-watermark")
+			// conservation: an accepted row that has not been delivered yet is still buffered
+			inBuf := false
+			for _, r := range tw.data {
+				if r.Data.(*verifEv).id == i {
+					inBuf = true
+				}
+			}
+			zzverif.Assert(inBuf, "accepted-undelivered-row-still-buffered")
 		}
 	}
 	zzverif.Observe("deliveries", int64(len(rec.ds)))
